@@ -56,6 +56,10 @@ func (m UniformObjectMap) Insert(parent v1.Object, obj *unstructured.Unstructure
 // InsertAll inserts given slice of objects to UniformObjectMap
 func (m UniformObjectMap) InsertAll(parent v1.Object, objects []*unstructured.Unstructured) {
 	for _, object := range objects {
+		if object == nil {
+			// a null entry (e.g. `"children": [null]` in a hook response) carries nothing to insert
+			continue
+		}
 		m.Insert(parent, object)
 	}
 }
